@@ -811,6 +811,17 @@ theorem cstep_ref (cfg : Settings) (mask t0 : Nat) (s : Sys) (op : COp) (h : Ref
         · split
           · exact h
           · exact ref_congr (ref_server (ref_congr h rfl rfl) _) rfl rfl
+  | inextLost i =>
+    simp only [cstep]
+    split
+    · exact h
+    · split
+      · exact h
+      · split
+        · exact h
+        · split
+          · exact h
+          · exact ref_server (ref_congr h rfl rfl) _
   | iclose i =>
     simp only [cstep]
     split
